@@ -60,6 +60,7 @@ type Set struct {
 	Members []int  `json:"members"` // type indices whose source lives here
 	Nested  []int  `json:"nested"`  // set ids
 	Parent  int    `json:"parent"`  // -1 = root
+	Dup     bool   `json:"dup,omitempty"` // malformed on purpose: first member listed twice (multiple bindings); used by no injector
 }
 
 // Item is one argument of wire.Build.
@@ -601,4 +602,96 @@ func (m *Module) PruneTo(inj *Injector) {
 		}
 	}
 	m.Injectors = []*Injector{inj}
+}
+
+// Mutate turns an accepted module into one with a known defect (for the
+// check-vs-gen agreement runs of C19). It returns "" if the mutation kind does
+// not apply to this module.
+func (m *Module) Mutate(r *rand.Rand, kind string) string {
+	if len(m.Injectors) == 0 {
+		return ""
+	}
+	inj := m.Injectors[r.IntN(len(m.Injectors))]
+	switch kind {
+	case "missing":
+		var direct []int
+		for i, it := range inj.Build {
+			if it.Set < 0 && m.Types[it.Type].Src.Kind != "bind" {
+				direct = append(direct, i)
+			}
+		}
+		if len(direct) == 0 {
+			return ""
+		}
+		i := direct[r.IntN(len(direct))]
+		inj.Build = append(append([]Item{}, inj.Build[:i]...), inj.Build[i+1:]...)
+		return "missing"
+	case "multi":
+		for _, it := range inj.Build {
+			if it.Set < 0 && m.Types[it.Type].Src.Kind == "func" {
+				inj.Build = append(inj.Build, it)
+				return "multi"
+			}
+		}
+		return ""
+	case "unused":
+		used := map[int]bool{}
+		for _, it := range inj.Build {
+			if it.Set >= 0 {
+				for _, ti := range m.setClosure(it.Set) {
+					used[ti] = true
+				}
+			} else {
+				used[it.Type] = true
+			}
+		}
+		for _, p := range inj.Params {
+			used[p.Type.Idx] = true
+		}
+		// anything the closure needs is "used" too: walk deps of listed items
+		var mark func(ti int)
+		mark = func(ti int) {
+			for _, d := range m.deps(m.Types[ti]) {
+				if !used[d.Idx] {
+					used[d.Idx] = true
+					mark(d.Idx)
+				}
+			}
+		}
+		for ti := range used {
+			mark(ti)
+		}
+		for _, t := range m.Types {
+			if !used[t.Idx] && t.Pkg <= inj.Pkg && t.Src.Home == -1 && t.Src.Kind == "func" {
+				inj.Build = append(inj.Build, Item{Set: -1, Type: t.Idx})
+				return "unused"
+			}
+		}
+		return ""
+	case "sigerr":
+		for _, in := range m.Injectors {
+			if in.NeedErrs > 0 {
+				in.DeclErr = false
+				return "sigerr"
+			}
+		}
+		return ""
+	case "sigcleanup":
+		for _, in := range m.Injectors {
+			if in.NeedCleanups > 0 {
+				in.DeclCleanup = false
+				return "sigcleanup"
+			}
+		}
+		return ""
+	case "badset":
+		for _, t := range m.Types {
+			if t.Src.Kind == "func" && t.Pkg >= m.Ext {
+				m.Sets = append(m.Sets, &Set{ID: len(m.Sets), Pkg: t.Pkg, Name: "MalformedUnusedSet", Members: []int{t.Idx}, Parent: -1, Dup: true})
+				return "badset"
+			}
+		}
+		return ""
+	}
+	return ""
 }
